@@ -183,7 +183,7 @@ func verifDial(d *websocket.Dialer, urlStr string, h http.Header) (*websocket.Co
 	return new(websocket.Conn), nil, nil
 }
 func verifCopyLoop(c1 io.ReadWriteCloser, c2 io.ReadWriteCloser, shutdown chan struct{}) {}
-func verifWSClose(c io.Closer) error { return nil }
+func verifWSClose(c io.Closer) error                                                     { return nil }
 
 func VerifC16_Handler() {
 	tokens = newTokens(uint(2 * verifapi.Concrete(verifapi.Choice("capacity", 2)))) // unlimited or 2
